@@ -240,8 +240,14 @@ class KB:
         return self.len_of(b, e, depth + 1)
 
     def len_of(self, b, e, depth):
-        """Static element count of an array/slice expression (array fields and locals by type)."""
+        """Static element count of an array/slice expression (array literals, array fields and locals by type)."""
         F = self.F
+        if e[0] == "agg" and e[1] == "array":
+            return len(e[2])
+        if e[0] == "cast":
+            return self.len_of(b, e[3], depth + 1)
+        if e[0] == "call" and (e[1].endswith("::as_slice") or e[1].endswith("::as_mut_slice") or e[1].endswith("Deref::deref")) and e[2]:
+            return self.len_of(b, e[2][0], depth + 1)
         if e[0] == "field" and e[1][0] == "param":
             # self.field of array type
             t = F.strip_refs(b.locals[e[1][1]])
